@@ -152,3 +152,24 @@ func VerifC14_O_command_breaks_condition() {
 	sym.Assert(cacheEntryExists(p, t.ChangeHash) == !breaks, "C14.O3.broken-postcondition-is-not-cached")
 	sym.Reach("C14.O.breaks")
 }
+
+// O5: a target without a command (a guard that only has output checks) succeeds - and is cached - iff its checks pass
+func VerifC14_O_commandless_guard() {
+	w := newWorld()
+	nChecks := 1 + sym.Choice("n_checks_minus_1", 2)
+	t := &model.Target{Label: fileTarget("g", "").Label}
+	allPass := true
+	for i := 0; i < nChecks; i++ {
+		cmd := []string{"check-0", "check-1"}[i]
+		passes := flag("passes_" + cmd)
+		cmdModel[cmd] = &cmdBehaviour{fail: !passes}
+		allPass = allPass && passes
+		t.OutputChecks = append(t.OutputChecks, model.OutputCheck{Command: cmd})
+	}
+	mode := modeOf(sym.Choice("mode", 2))
+	p := w.newProcess(true, mode, t)
+	_, err := p.run(w.ctx, t)
+	sym.Assert((err == nil) == allPass, "C14.O5.commandless-target-succeeds-iff-its-checks-pass")
+	sym.Assert(cacheEntryExists(p, t.ChangeHash) == allPass, "C14.O5.commandless-target-cached-iff-success")
+	sym.Reach("C14.O.commandless")
+}
